@@ -140,6 +140,11 @@ def check_match(ctx):
 
 def check_invalidate(ctx):
     inst = "C16.invalidate"
+    from rules.common import check_forwarder
+    check_forwarder(ctx, inst, "FeoxStore::remove_cached", "ClockCache::remove_for_record", [(2, 1), (3, 2)], "the store's invalidation helper drops the given generation of the given key")
+    check_forwarder(ctx, inst, "ClockCache::remove_for_record", "ClockCache::remove_entry", [(2, 1)], "the keyed removal looks up the given key")
+    check_forwarder(ctx, inst, "ClockCache::get_for_record", "ClockCache::get_entry", [(2, 1)], "the keyed lookup looks up the given key")
+    check_forwarder(ctx, inst, "ClockCache::insert_for_record", "ClockCache::insert_entry", [(2, 1), (3, 2)], "the keyed insert caches the given value under the given key")
     for (b, n, kind) in S.pub_sites(ctx, inst, kinds=("repl",)):
         rm = ctx.sites(b, R.call("ClockCache::remove_for_record"), inst, exact=1)
         # on persistent + caching + cache present paths the invalidation follows the replacement
